@@ -1,8 +1,10 @@
 // Package strtmpl extracts, from go/ssa, the TEMPLATE of a string a function
 // builds: literals, printed values, and repetitions produced by loops
-// (accumulation with +=, slices filled by append and joined by strings.Join).
-// Nothing is executed; a shape that is not modelled yields an error and the
-// client must report the construct undecided.
+// (accumulation with +=, slices filled by append and joined by strings.Join,
+// byte buffers extended by append / strconv.Append* / fmt.Appendf and converted
+// with string(b), strings.Builder / bytes.Buffer written to along the control
+// flow — see buffer.go). Nothing is executed; a shape that is not modelled
+// yields an error and the client must report the construct undecided.
 package strtmpl
 
 import (
@@ -24,6 +26,7 @@ const (
 	Join             // Parts joined by Sep
 	Self             // internal: the accumulator being defined
 	Opt              // Body present only when Cond holds
+	Tick             // internal: one increment of a counter (Eval.count)
 )
 
 type Item struct {
@@ -36,6 +39,13 @@ type Item struct {
 	Cond  *Filter
 	Sep   string // Join
 	Parts []Part // Join
+	// Acc identifies the accumulator: for Self the one being defined, for Rep the
+	// loop-carried accumulator the repetition extends (an *ssa.Phi, or a bufKey
+	// for a strings.Builder / bytes.Buffer).
+	Acc any
+	// Assume (Join): the text equals the join only under this condition
+	// ("" = unconditionally).
+	Assume string
 }
 
 // Part is one element source of a joined list: a single element, or a
@@ -49,22 +59,22 @@ type Part struct {
 }
 
 // mergeFilter: the branch that decides whether the edge from Preds[i] into the
-// merge block of phi is taken.
-func mergeFilter(phi *ssa.Phi, i int) *Filter {
-	pred := phi.Block().Preds[i]
-	for d := phi.Block().Idom(); d != nil; d = d.Idom() {
+// merge block blk is taken.
+func mergeFilter(blk *ssa.BasicBlock, i int) *Filter {
+	pred := blk.Preds[i]
+	for d := blk.Idom(); d != nil; d = d.Idom() {
 		iff, ok := d.Instrs[len(d.Instrs)-1].(*ssa.If)
 		if !ok || len(d.Succs) != 2 || isLoopHeader(d) {
 			continue
 		}
-		owns := func(s *ssa.BasicBlock) bool { return s != phi.Block() && len(s.Preds) == 1 && s.Dominates(pred) }
+		owns := func(s *ssa.BasicBlock) bool { return s != blk && len(s.Preds) == 1 && s.Dominates(pred) }
 		t, f := owns(d.Succs[0]), owns(d.Succs[1])
 		if t != f {
 			return &Filter{Cond: iff.Cond, Truth: t}
 		}
 		// the edge may come straight from d (the other branch holds the alternative)
 		if pred == d {
-			o0, o1 := d.Succs[0] != phi.Block(), d.Succs[1] != phi.Block()
+			o0, o1 := d.Succs[0] != blk, d.Succs[1] != blk
 			if o0 != o1 {
 				return &Filter{Cond: iff.Cond, Truth: !o0}
 			}
@@ -74,43 +84,104 @@ func mergeFilter(phi *ssa.Phi, i int) *Filter {
 	return nil
 }
 
-// mergeString: `if c { acc += x }` seen at the merge point: acc, or acc + x.
-func (e *Eval) mergeString(x *ssa.Phi) ([]Item, error) {
-	var self *Item
-	var ext []Item
-	var cond *Filter
-	for i, edge := range x.Edges {
-		items, err := e.String(edge)
+func sameFilter(a, b *Filter) bool {
+	if a == nil || b == nil {
+		return a == b
+	}
+	return a.Cond == b.Cond && a.Truth == b.Truth
+}
+
+func sameItems(a, b []Item) bool {
+	if len(a) != len(b) {
+		return false
+	}
+	for i := range a {
+		if !sameItem(a[i], b[i]) {
+			return false
+		}
+	}
+	return true
+}
+
+func sameItem(a, b Item) bool {
+	if a.Kind != b.Kind {
+		return false
+	}
+	switch a.Kind {
+	case Lit:
+		return a.Lit == b.Lit
+	case Val:
+		return a.Val == b.Val && a.Verb == b.Verb
+	case Self:
+		return a.Acc == b.Acc
+	case Tick:
+		return true
+	case Rep:
+		return a.Loop == b.Loop && sameFilter(a.Cond, b.Cond) && sameItems(a.Body, b.Body)
+	case Opt:
+		return sameFilter(a.Cond, b.Cond) && sameItems(a.Body, b.Body)
+	case Join:
+		return a.Sep == b.Sep && sameParts(a.Parts, b.Parts)
+	}
+	return false
+}
+
+func sameParts(a, b []Part) bool {
+	if len(a) != len(b) {
+		return false
+	}
+	for i := range a {
+		if a[i].Loop != b[i].Loop || a[i].self != b[i].self || !sameFilter(a[i].Cond, b[i].Cond) ||
+			!sameItems(a[i].Elem, b[i].Elem) || !sameParts(a[i].Body, b[i].Body) {
+			return false
+		}
+	}
+	return true
+}
+
+// merge: an accumulator at a merge point that is not a loop header. The paths
+// share a common beginning; at most one of them may add something after it
+// (`if c { acc += x }`), which becomes an optional part under that path's
+// condition.
+func (e *Eval) merge(blk *ssa.BasicBlock, edge func(i int) ([]Item, error)) ([]Item, error) {
+	var all [][]Item
+	for i := range blk.Preds {
+		items, err := edge(i)
 		if err != nil {
 			return nil, err
 		}
-		if len(items) == 0 || items[0].Kind != Self {
-			return nil, fmt.Errorf("text merged from alternative paths is not modelled")
+		all = append(all, items)
+	}
+	if len(all) == 0 {
+		return nil, fmt.Errorf("empty merge")
+	}
+	n := len(all[0])
+	for _, it := range all[1:] {
+		k := 0
+		for k < n && k < len(it) && sameItem(all[0][k], it[k]) {
+			k++
 		}
-		if self != nil && self.Val != items[0].Val {
-			return nil, fmt.Errorf("text merged from different accumulators")
-		}
-		self = &items[0]
-		if len(items) == 1 {
+		n = k
+	}
+	out := append([]Item(nil), all[0][:n]...)
+	var ext []Item
+	for i, it := range all {
+		if len(it) == n {
 			continue
 		}
 		if ext != nil {
+			if sameItems(ext[0].Body, it[n:]) {
+				return nil, fmt.Errorf("text extended in the same way on two of several alternative paths")
+			}
 			return nil, fmt.Errorf("text extended in different ways on alternative paths")
 		}
-		ext = items[1:]
-		cond = mergeFilter(x, i)
+		cond := mergeFilter(blk, i)
 		if cond == nil {
 			return nil, fmt.Errorf("the condition of an optional extension is not a plain branch")
 		}
+		ext = []Item{{Kind: Opt, Body: append([]Item(nil), it[n:]...), Cond: cond}}
 	}
-	if self == nil {
-		return nil, fmt.Errorf("empty merge")
-	}
-	out := []Item{*self}
-	if ext != nil {
-		out = append(out, Item{Kind: Opt, Body: ext, Cond: cond})
-	}
-	return out, nil
+	return append(out, ext...), nil
 }
 
 func (e *Eval) mergeList(x *ssa.Phi) ([]Part, error) {
@@ -134,7 +205,7 @@ func (e *Eval) mergeList(x *ssa.Phi) ([]Part, error) {
 		if ext != nil {
 			return nil, fmt.Errorf("list extended in different ways on alternative paths")
 		}
-		cond := mergeFilter(x, i)
+		cond := mergeFilter(x.Block(), i)
 		if cond == nil {
 			return nil, fmt.Errorf("the condition of an optional element is not a plain branch")
 		}
@@ -171,11 +242,97 @@ type Loop struct {
 }
 
 type Eval struct {
-	loops map[*ssa.BasicBlock]*Loop
-	stack []ssa.Value
+	loops   map[*ssa.BasicBlock]*Loop
+	stack   []any
+	bufs    map[*ssa.Alloc]*bufInfo
+	df      map[*ssa.Function]map[*ssa.BasicBlock][]*ssa.BasicBlock
+	steps   int
+	visited map[any]bool // accumulators evaluated (Joinify: the family of a counter)
+
+	// InModule, when set, lets the evaluation enter in-module helpers that build
+	// a text or a list: the helper's single non-constant return is evaluated with
+	// its parameters bound to the arguments of the call.
+	InModule func(*ssa.Function) bool
+	bind     map[*ssa.Parameter]ssa.Value
+	bound    map[*ssa.Parameter]ssa.Value // last binding of every parameter entered (nil value: bound twice, ambiguous)
+	inCalls  []*ssa.Function
 }
 
-func New() *Eval { return &Eval{loops: map[*ssa.BasicBlock]*Loop{}} }
+func New() *Eval {
+	return &Eval{loops: map[*ssa.BasicBlock]*Loop{}, bufs: map[*ssa.Alloc]*bufInfo{},
+		df: map[*ssa.Function]map[*ssa.BasicBlock][]*ssa.BasicBlock{}, visited: map[any]bool{},
+		bind: map[*ssa.Parameter]ssa.Value{}, bound: map[*ssa.Parameter]ssa.Value{}}
+}
+
+// Bound: the caller's value a helper parameter stood for while the helper was
+// evaluated (nil: never entered, or entered with two different arguments).
+func (e *Eval) Bound(p *ssa.Parameter) ssa.Value { return e.bound[p] }
+
+// helperReturn: call enters an in-module helper with one result; returns the
+// value of its single non-constant return and binds its parameters. The caller
+// must invoke the returned function when it is done with the helper.
+func (e *Eval) helperReturn(call *ssa.Call) (ssa.Value, func(), bool) {
+	g := call.Common().StaticCallee()
+	if e.InModule == nil || g == nil || g.Blocks == nil || !e.InModule(g) || g.Signature.Results().Len() != 1 ||
+		len(g.Params) != len(call.Common().Args) || len(e.inCalls) >= 3 {
+		return nil, nil, false
+	}
+	for _, f := range e.inCalls {
+		if f == g {
+			return nil, nil, false
+		}
+	}
+	var main ssa.Value
+	for _, b := range g.Blocks {
+		ret, ok := b.Instrs[len(b.Instrs)-1].(*ssa.Return)
+		if !ok {
+			continue
+		}
+		if k, isK := ret.Results[0].(*ssa.Const); isK {
+			if s, isS := constString(k); k.Value == nil || (isS && s == "") {
+				continue // early exit answering the empty text / the nil list
+			}
+		}
+		if main != nil {
+			return nil, nil, false
+		}
+		main = ret.Results[0]
+	}
+	if main == nil {
+		return nil, nil, false
+	}
+	saved := map[*ssa.Parameter]ssa.Value{}
+	for i, q := range g.Params {
+		saved[q] = e.bind[q]
+		e.bind[q] = call.Common().Args[i]
+		if old, seen := e.bound[q]; seen && old != call.Common().Args[i] {
+			e.bound[q] = nil
+		} else {
+			e.bound[q] = call.Common().Args[i]
+		}
+	}
+	e.inCalls = append(e.inCalls, g)
+	return main, func() {
+		e.inCalls = e.inCalls[:len(e.inCalls)-1]
+		for q, v := range saved {
+			if v == nil {
+				delete(e.bind, q)
+			} else {
+				e.bind[q] = v
+			}
+		}
+	}, true
+}
+
+const maxSteps = 100000
+
+func (e *Eval) step() error {
+	e.steps++
+	if e.steps > maxSteps {
+		return fmt.Errorf("template evaluation budget exhausted")
+	}
+	return nil
+}
 
 func constString(v ssa.Value) (string, bool) {
 	k, ok := v.(*ssa.Const)
@@ -297,7 +454,7 @@ func parseFormat(f string) (lits []string, verbs []byte, ok bool) {
 	return lits, verbs, true
 }
 
-func (e *Eval) onStack(v ssa.Value) bool {
+func (e *Eval) onStack(v any) bool {
 	for _, s := range e.stack {
 		if s == v {
 			return true
@@ -394,6 +551,9 @@ func (e *Eval) LoopOf(b *ssa.BasicBlock) (*Loop, error) {
 	return l, nil
 }
 
+// LoopBlocks: the blocks of the natural loop(s) with header h.
+func LoopBlocks(h *ssa.BasicBlock) map[*ssa.BasicBlock]bool { return naturalLoop(h) }
+
 // naturalLoop: the blocks of the natural loop(s) with header h.
 func naturalLoop(h *ssa.BasicBlock) map[*ssa.BasicBlock]bool {
 	body := map[*ssa.BasicBlock]bool{h: true}
@@ -438,10 +598,158 @@ func filterFor(header, pred *ssa.BasicBlock) *Filter {
 	return nil
 }
 
+// acc evaluates a loop-carried or merged accumulator identified by key (an
+// *ssa.Phi, or a bufKey for a buffer) at the head of blk; edge(i) is the
+// accumulator's value on the edge from blk.Preds[i].
+func (e *Eval) acc(key any, blk *ssa.BasicBlock, edge func(i int) ([]Item, error)) ([]Item, error) {
+	if e.onStack(key) {
+		return []Item{{Kind: Self, Acc: key}}, nil
+	}
+	if err := e.step(); err != nil {
+		return nil, err
+	}
+	if len(e.stack) > 40 {
+		return nil, fmt.Errorf("template too deep")
+	}
+	e.visited[key] = true
+	if !isLoopHeader(blk) {
+		return e.merge(blk, edge)
+	}
+	loop, err := e.LoopOf(blk)
+	if err != nil {
+		return nil, err
+	}
+	e.stack = append(e.stack, key)
+	defer func() { e.stack = e.stack[:len(e.stack)-1] }()
+	var init []Item
+	var rep *Item
+	initSet := false
+	for i, pred := range blk.Preds {
+		items, err := edge(i)
+		if err != nil {
+			return nil, err
+		}
+		if !blk.Dominates(pred) {
+			if initSet && !sameItems(init, items) {
+				return nil, fmt.Errorf("accumulator has several initial values")
+			}
+			for _, it := range items {
+				if it.Kind == Self && it.Acc == key {
+					return nil, fmt.Errorf("accumulator initialised from itself")
+				}
+			}
+			init, initSet = items, true
+			continue
+		}
+		if len(items) == 1 && items[0].Kind == Self && items[0].Acc == key {
+			continue // iteration that appends nothing
+		}
+		if len(items) < 2 || items[0].Kind != Self || items[0].Acc != key {
+			return nil, fmt.Errorf("accumulator is not extended at its end (acc = acc + …)")
+		}
+		for _, it := range items[1:] {
+			if it.Kind == Self {
+				return nil, fmt.Errorf("accumulator used twice in one iteration")
+			}
+		}
+		if rep != nil {
+			return nil, fmt.Errorf("accumulator extended in different ways on different paths")
+		}
+		rep = &Item{Kind: Rep, Loop: loop, Body: items[1:], Cond: filterFor(blk, pred), Acc: key}
+	}
+	out := append([]Item(nil), init...)
+	if rep != nil {
+		out = append(out, *rep)
+	}
+	return out, nil
+}
+
+// formatItems: the template of fmt.Sprintf(format, vals...).
+func (e *Eval) formatItems(fv, argv ssa.Value) ([]Item, error) {
+	f, ok := constString(fv)
+	if !ok {
+		return nil, fmt.Errorf("format is not a constant")
+	}
+	vals, ok := Varargs(argv)
+	if !ok {
+		return nil, fmt.Errorf("format arguments are not a plain list")
+	}
+	lits, verbs, ok := parseFormat(f)
+	if !ok || len(verbs) != len(vals) {
+		return nil, fmt.Errorf("format %q uses flags or does not match its arguments", f)
+	}
+	var out []Item
+	for i, vb := range verbs {
+		if lits[i] != "" {
+			out = append(out, Item{Kind: Lit, Lit: lits[i]})
+		}
+		a := peelIface(vals[i])
+		if (vb == 's' || vb == 'v') && isString(a.Type()) {
+			sub, err := e.String(a)
+			if err != nil {
+				return nil, err
+			}
+			out = append(out, sub...)
+			continue
+		}
+		out = append(out, Item{Kind: Val, Val: a, Verb: vb})
+	}
+	if l := lits[len(verbs)]; l != "" {
+		out = append(out, Item{Kind: Lit, Lit: l})
+	}
+	return out, nil
+}
+
+// nested: items is exactly one repetition, possibly of one repetition, …;
+// returns the chain of repetitions (outermost first) and the innermost body.
+func nested(items []Item) (chain []Item, body []Item, ok bool) {
+	for len(items) == 1 && items[0].Kind == Rep {
+		chain = append(chain, items[0])
+		items = items[0].Body
+	}
+	return chain, items, len(chain) > 0
+}
+
+// joinOf builds join(sep; chain … [elem]).
+func joinOf(sep string, chain []Item, elem []Item, assume string) Item {
+	part := Part{Elem: elem}
+	for i := len(chain) - 1; i >= 0; i-- {
+		part = Part{Loop: chain[i].Loop, Cond: chain[i].Cond, Body: []Part{part}}
+	}
+	return Item{Kind: Join, Sep: sep, Parts: []Part{part}, Assume: assume}
+}
+
+func hasKind(items []Item, k ...Kind) bool {
+	for _, it := range items {
+		for _, kk := range k {
+			if it.Kind == kk {
+				return true
+			}
+		}
+	}
+	return false
+}
+
+// receiverBuffer: cc is a call of method name… on a local strings.Builder / bytes.Buffer.
+func bufferMethod(cc *ssa.CallCommon) (*ssa.Alloc, string) {
+	fn := cc.StaticCallee()
+	if fn == nil || fn.Signature.Recv() == nil || len(cc.Args) == 0 || !isTextBuffer(fn.Signature.Recv().Type()) {
+		return nil, ""
+	}
+	al, ok := cc.Args[0].(*ssa.Alloc)
+	if !ok {
+		return nil, ""
+	}
+	return al, fn.Name()
+}
+
 // String evaluates a string-typed value to its template.
 func (e *Eval) String(v ssa.Value) ([]Item, error) {
 	if e.onStack(v) {
-		return []Item{{Kind: Self, Val: v}}, nil
+		return []Item{{Kind: Self, Val: v, Acc: v}}, nil
+	}
+	if err := e.step(); err != nil {
+		return nil, err
 	}
 	if len(e.stack) > 40 {
 		return nil, fmt.Errorf("template too deep")
@@ -453,6 +761,24 @@ func (e *Eval) String(v ssa.Value) ([]Item, error) {
 		return []Item{{Kind: Lit, Lit: s}}, nil
 	}
 	switch x := v.(type) {
+	case *ssa.Parameter:
+		if b, ok := e.bind[x]; ok {
+			return e.String(b)
+		}
+	case *ssa.ChangeType:
+		if isString(x.X.Type()) {
+			return e.String(x.X)
+		}
+	case *ssa.Convert:
+		if isByteSlice(x.X.Type()) {
+			return e.Bytes(x.X)
+		}
+		if isString(x.X.Type()) {
+			return e.String(x.X)
+		}
+		if k, ok := constInt(x.X); ok && k >= 0 && k < 0x80 { // string(rune constant)
+			return []Item{{Kind: Lit, Lit: string(rune(k))}}, nil
+		}
 	case *ssa.BinOp:
 		if x.Op == token.ADD {
 			a, err := e.String(x.X)
@@ -466,42 +792,28 @@ func (e *Eval) String(v ssa.Value) ([]Item, error) {
 			return append(append([]Item(nil), a...), b...), nil
 		}
 	case *ssa.Call:
+		if al, name := bufferMethod(x.Common()); al != nil && name == "String" {
+			return e.bufferAt(al, x)
+		}
+		if main, done, ok := e.helperReturn(x); ok {
+			defer done()
+			return e.String(main)
+		}
 		pkg, name := callee(x.Common())
 		args := x.Common().Args
 		switch {
 		case pkg == "fmt" && name == "Sprintf":
-			f, ok := constString(args[0])
-			if !ok {
-				return nil, fmt.Errorf("Sprintf format is not a constant")
+			return e.formatItems(args[0], args[1])
+		case pkg == "fmt" && name == "Sprint":
+			vals, ok := Varargs(args[0])
+			if !ok || len(vals) != 1 {
+				return nil, fmt.Errorf("Sprint of several operands is not modelled")
 			}
-			vals, ok := Varargs(args[1])
-			if !ok {
-				return nil, fmt.Errorf("Sprintf arguments are not a plain list")
+			a := peelIface(vals[0])
+			if isString(a.Type()) {
+				return e.String(a)
 			}
-			lits, verbs, ok := parseFormat(f)
-			if !ok || len(verbs) != len(vals) {
-				return nil, fmt.Errorf("format %q uses flags or does not match its arguments", f)
-			}
-			var out []Item
-			for i, vb := range verbs {
-				if lits[i] != "" {
-					out = append(out, Item{Kind: Lit, Lit: lits[i]})
-				}
-				a := peelIface(vals[i])
-				if (vb == 's' || vb == 'v') && isString(a.Type()) {
-					sub, err := e.String(a)
-					if err != nil {
-						return nil, err
-					}
-					out = append(out, sub...)
-					continue
-				}
-				out = append(out, Item{Kind: Val, Val: a, Verb: vb})
-			}
-			if l := lits[len(verbs)]; l != "" {
-				out = append(out, Item{Kind: Lit, Lit: l})
-			}
-			return out, nil
+			return []Item{{Kind: Val, Val: a, Verb: 'd'}}, nil
 		case pkg == "strconv" && name == "Itoa":
 			return []Item{{Kind: Val, Val: args[0], Verb: 'd'}}, nil
 		case pkg == "strconv" && (name == "FormatInt" || name == "FormatUint"):
@@ -519,77 +831,33 @@ func (e *Eval) String(v ssa.Value) ([]Item, error) {
 				return nil, err
 			}
 			return []Item{{Kind: Join, Sep: sep, Parts: parts}}, nil
-		case pkg == "strings" && name == "TrimSuffix":
-			suf, ok := constString(args[1])
+		case pkg == "strings" && (name == "TrimSuffix" || name == "TrimPrefix"):
+			fix, ok := constString(args[1])
 			if !ok {
-				return nil, fmt.Errorf("TrimSuffix argument is not a constant")
+				return nil, fmt.Errorf("%s argument is not a constant", name)
 			}
 			in, err := e.String(args[0])
 			if err != nil {
 				return nil, err
 			}
-			// "" + (elem + suf)* with the last suf removed == Join(elems, suf)
-			if len(in) == 1 && in[0].Kind == Rep && len(in[0].Body) >= 2 {
-				body := in[0].Body
-				if last := body[len(body)-1]; last.Kind == Lit && last.Lit == suf && !templateMayEndWith(body[:len(body)-1], suf) {
-					return []Item{{Kind: Join, Sep: suf, Parts: []Part{{Loop: in[0].Loop, Cond: in[0].Cond,
-						Body: []Part{{Elem: body[:len(body)-1]}}}}}}, nil
+			// "" + (elem + sep)* with the last sep removed, or "" + (sep + elem)* with the
+			// first sep removed, is Join(elems, sep) — for every element, empty ones included
+			if chain, body, ok := nested(in); ok && len(body) >= 2 && !hasKind(body, Self, Opt, Rep) {
+				if name == "TrimSuffix" {
+					if last := body[len(body)-1]; last.Kind == Lit && last.Lit == fix && !templateMayEndWith(body[:len(body)-1], fix) {
+						return []Item{joinOf(fix, chain, body[:len(body)-1], "")}, nil
+					}
+				} else if first := body[0]; first.Kind == Lit && first.Lit == fix {
+					return []Item{joinOf(fix, chain, body[1:], "")}, nil
 				}
 			}
-			return nil, fmt.Errorf("TrimSuffix of a text that is not a plain `(element + %q)*` accumulation", suf)
+			if !hasKind(in, Rep, Join, Opt, Self) {
+				break // trimming of a plain value: the result is an opaque piece of text
+			}
+			return nil, fmt.Errorf("%s of a text that is not a plain `(element, %q)*` accumulation", name, fix)
 		}
 	case *ssa.Phi:
-		if !isLoopHeaderPhi(x) {
-			return e.mergeString(x)
-		}
-		loop, err := e.LoopOf(x.Block())
-		if err != nil {
-			return nil, err
-		}
-		e.stack = append(e.stack, x)
-		defer func() { e.stack = e.stack[:len(e.stack)-1] }()
-		var init []Item
-		var rep *Item
-		initSet := false
-		for i, edge := range x.Edges {
-			pred := x.Block().Preds[i]
-			items, err := e.String(edge)
-			if err != nil {
-				return nil, err
-			}
-			if !x.Block().Dominates(pred) {
-				if initSet {
-					return nil, fmt.Errorf("accumulator has several initial values")
-				}
-				for _, it := range items {
-					if it.Kind == Self {
-						return nil, fmt.Errorf("accumulator initialised from itself")
-					}
-				}
-				init, initSet = items, true
-				continue
-			}
-			if len(items) == 1 && items[0].Kind == Self && items[0].Val == ssa.Value(x) {
-				continue // iteration that appends nothing
-			}
-			if len(items) < 2 || items[0].Kind != Self || items[0].Val != ssa.Value(x) {
-				return nil, fmt.Errorf("accumulator is not extended at its end (acc = acc + …)")
-			}
-			for _, it := range items[1:] {
-				if it.Kind == Self {
-					return nil, fmt.Errorf("accumulator used twice in one iteration")
-				}
-			}
-			if rep != nil {
-				return nil, fmt.Errorf("accumulator extended in different ways on different paths")
-			}
-			rep = &Item{Kind: Rep, Loop: loop, Body: items[1:], Cond: filterFor(x.Block(), pred)}
-		}
-		out := append([]Item(nil), init...)
-		if rep != nil {
-			out = append(out, *rep)
-		}
-		return out, nil
+		return e.acc(x, x.Block(), func(i int) ([]Item, error) { return e.String(x.Edges[i]) })
 	}
 	if isString(v.Type()) {
 		return []Item{{Kind: Val, Val: v, Verb: 's'}}, nil
@@ -608,12 +876,16 @@ func templateMayEndWith(items []Item, suf string) bool {
 // List evaluates a []string value to the sources of its elements, in order.
 func (e *Eval) List(v ssa.Value) ([]Part, error) {
 	if e.onStack(v) {
-		return []Part{{self: true, Elem: []Item{{Kind: Self, Val: v}}}}, nil
+		return []Part{{self: true, Elem: []Item{{Kind: Self, Val: v, Acc: v}}}}, nil
 	}
 	if len(e.stack) > 40 {
 		return nil, fmt.Errorf("list too deep")
 	}
 	switch x := v.(type) {
+	case *ssa.Parameter:
+		if b, ok := e.bind[x]; ok {
+			return e.List(b)
+		}
 	case *ssa.Const:
 		if x.Value == nil {
 			return nil, nil
@@ -630,6 +902,11 @@ func (e *Eval) List(v ssa.Value) ([]Part, error) {
 				if at, ok := pt.Elem().Underlying().(*types.Array); ok {
 					if at.Len() == 0 {
 						return nil, nil
+					}
+					if x.Low == nil && x.High != nil { // make([]string, 0, constant) is lowered to new [n]string + [:0]
+						if n, ok := constInt(x.High); ok && n == 0 {
+							return nil, nil
+						}
 					}
 					if x.Low == nil && x.High == nil {
 						vals, ok := Varargs(x)
@@ -650,6 +927,10 @@ func (e *Eval) List(v ssa.Value) ([]Part, error) {
 			}
 		}
 	case *ssa.Call:
+		if main, done, ok := e.helperReturn(x); ok {
+			defer done()
+			return e.List(main)
+		}
 		if _, name := callee(x.Common()); name == "append" && len(x.Common().Args) == 2 {
 			base, err := e.List(x.Common().Args[0])
 			if err != nil {
@@ -877,6 +1158,8 @@ func Describe(items []Item) string {
 			fmt.Fprintf(&sb, "[%s]? ", strings.TrimSpace(Describe(it.Body)))
 		case Self:
 			sb.WriteString("<acc> ")
+		case Tick:
+			sb.WriteString("+1 ")
 		}
 	}
 	return strings.TrimSpace(sb.String())
